@@ -156,9 +156,10 @@ let run_dry_line id =
       let dirty = next () = "1" in
       let dir = parse_dir () in
       let cf = { c_order = Linear; c_baseline = baseline; c_allow_dirty = allow; c_dirty = dirty } in
-      let (o, d') = migrate_apply heq hs dry mode (nat_of_int n) cf dir !st in
+      let (o, d') = migrate_apply_cmd heq hs dry mode (nat_of_int n) cf dir !st in
       st := d';
-      Printf.printf "%s step%d exit=%s table=%s %s\n" id i (show_exit o) (b2s d'.cd_revtable) (show_db d'.cd_db)
+      let ex = match o with CmdFlagsExclusive -> "fail" | Cmd o -> show_exit o in
+      Printf.printf "%s step%d exit=%s table=%s %s\n" id i ex (b2s d'.cd_revtable) (show_db d'.cd_db)
     done
   | "S" ->
     let txmode = mode_of (next ()) in
